@@ -104,6 +104,32 @@ def src_lam3(scratch):
     return Built(_lambda_env(ctx, act, rwd, 3), {'contexts': ctx, 'actions': act, 'rewards': rwd})
 
 
+def src_lam2h(scratch):
+    """exactly TWO one-hot actions (a reward function whose argmax is a 2-tuple must survive every persistence route)"""
+    ctx, _, rwd = _lam_tables()
+    act = [(1, 0), (0, 1)]
+    rwd = [r[1:] for r in rwd]          # not 0/1 valued: Grounded then builds BinaryReward(argmax) functions
+    return Built(_lambda_env(ctx, act, rwd), {'contexts': ctx, 'actions': act, 'rewards': rwd})
+
+
+def src_lam1a(scratch):
+    """exactly ONE (one-hot) action"""
+    ctx, _, rwd = _lam_tables()
+    act = [(1,)]
+    rwd = [r[2:] for r in rwd]
+    return Built(_lambda_env(ctx, act, rwd), {'contexts': ctx, 'actions': act, 'rewards': rwd})
+
+
+ARFF2_LINES = ['@relation t', '@attribute x numeric', '@attribute c {u,v}', '@attribute y {a,b}', '@data',
+               '1,u,a', '2,v,b', '3,u,a', '4,v,b', '5,u,b']
+
+
+def src_arff2(scratch):
+    """two-class supervised data with nominal labels: two Categorical actions (one-hot 2-tuples once finalized), BinaryReward(value 1)"""
+    lines = list(ARFF2_LINES)
+    return Built(SupervisedSimulation(ArffSource(ListSource(lines)), 'y'), {'lines': lines})
+
+
 def src_lin(scratch):
     return Built(LinearSyntheticSimulation(N, 3, 2, 2, seed=1))
 
@@ -247,6 +273,9 @@ SOURCES = {
     'linr':     (lambda sc: _lin(2, 2, ['a', 'xa', 'xxa']), 'LinearSyntheticSimulation',                      {'sim'}),
     'lind':     (lambda sc: _lin(2, 2),                     'LinearSyntheticSimulation',                      {'sim'}),
     'linFd':    (lambda sc: _lin(2, 2, facade=True),        'LinearSyntheticSimulation',                      {'sim'}),
+    'lam2h':    (src_lam2h,    'LambdaSimulation(2 one-hot actions)', {'sim'}),
+    'lam1a':    (src_lam1a,    'LambdaSimulation(1 action)',          {'sim'}),
+    'arff2':    (src_arff2,    'SupervisedSimulation(source, 2 classes)', {'sim'}),
     'lam3':     (src_lam3,     'LambdaSimulation',                    {'sim'}),
     'lam40':    (src_lam40,    'LambdaSimulation(40 interactions)',   {'sim'}),
     'lam1k':    (src_lam1k,    'LambdaSimulation(1001 interactions)', {'sim'}),
@@ -264,7 +293,8 @@ SOURCES = {
 
 
 SRC_LIN = ('lin0x', 'lin0a', 'lin0xr', 'lin0ar', 'linF0x', 'linF0ar', 'linr', 'lind', 'linFd')
-SRC_BIG = ('lam3', 'lam40', 'lam1k') + SRC_LIN       # explored by their own plans (see C04.pipelines)
+SRC_ACT = ('lam1a', 'lam2h', 'arff2')      # action-count alphabet 1 / 2 (3 and more: the other sources)
+SRC_BIG = ('lam3', 'lam40', 'lam1k') + SRC_LIN + SRC_ACT       # explored by their own plans (see C04.pipelines)
 
 
 def build_source(name, scratch):
